@@ -327,6 +327,29 @@ def routes_case(case):
   return {'evals': evals, 'nontrivial': True, 'outcome': [len(want), want[:2]]}
 
 
+def counts(case):
+  """Only the NUMBER of batches and their row counts, for a whole block of (N, batch_size, num_epochs, drop_remainder)
+  combinations far beyond the sizes whose draw streams are examined: exact integer arithmetic is the reference."""
+  evals = 0
+  outs = set()
+  for n in range(case['N_lo'], case['N_hi']):
+    ds, _ = make_ds(n, False)
+    for b in case['Bs']:
+      for ep in case['epochs']:
+        for drop in (False, True):
+          want = ref.shuffle_num_steps(n, b, ep, None, drop)
+          got = 0
+          for bt in ds.shuffle_repeat_batch(batch_size=b, num_epochs=ep, drop_remainder=drop, seed=1):
+            got += 1
+            if got > want + 2 or len(np.asarray(bt['i'])) != b:
+              break
+          require(got == want, 'number of batches differs from the documented count', want, got,
+                  case=dict(case, N_lo=n, N_hi=n + 1, Bs=[b], epochs=[ep], drop=drop))
+          evals += 1
+          outs.add(want)
+  return {'evals': evals, 'nontrivial': True, 'outcome': [case['N_lo'], case['N_hi'], len(outs)]}
+
+
 def seeded_streams(arg):
   """Index streams of seeded views for a list of configurations (parent and child interpreters)."""
   out = []
@@ -354,7 +377,7 @@ def other_process(case):
   return {'evals': evals, 'nontrivial': True, 'outcome': [len(case['configs']), case['hashseeds']]}
 
 
-SUBS = {'other_process': other_process, 'interleave': interleave, 'scripted': scripted, 'seeded': seeded, 'routes': routes_case}
+SUBS = {'counts': counts, 'other_process': other_process, 'interleave': interleave, 'scripted': scripted, 'seeded': seeded, 'routes': routes_case}
 
 
 def configs(ns, bs, epochs, steps):
@@ -371,7 +394,7 @@ def plan(ctx):
   ctx.rule = ('scripted: every (N<=4, B, num_epochs, num_steps, drop_remainder, skip_shuffle) x every sequence of '
               'permutations the RNG can answer for the first refills; seeded: N<=8 x B<=10 x all hparams x seed set '
               'with the real RandomState behind a recording seam; distinct = configuration tuple; non-trivial = '
-              'N mod B != 0 or B > N (a batch straddles a refill); routes: every effective assignment over a '
+              'N mod B != 0 or B > N (a batch straddles a refill); counts: batch counts for N 1..100 x 7 batch sizes x 5 epoch counts x drop_remainder; routes: every effective assignment over a '
               '2x3x3x2x2x2 value domain x every (base object, keyword overrides) pair expressing it (quick: bases '
               'differing in at most 2 fields)')
   ctx.assumptions += ['infinite streams (num_epochs=None and num_steps=None) are cut after 3*ceil(N/B)+2 batches',
@@ -407,6 +430,10 @@ def plan(ctx):
       for ep, st in ((2, None), (None, 5), (1, 1)):
         se.append({'N': n, 'B': b, 'epochs': ep, 'steps': st, 'drop': False, 'skip': False, 'seeds': seeds[:2], 'chain': False,
                    'clone': cln})
+  # large clients from which only a few batches are drawn (a partial shuffle would do), every draw distinct
+  for n in ((1000, 2000, 5000) if th else (1024, 2000)):
+    for b, st, ep in ((32, 8, None), (32, 8, 1), (7, 3, None), (64, 1, 2)):
+      se.append({'N': n, 'B': b, 'epochs': ep, 'steps': st, 'drop': False, 'skip': False, 'seeds': seeds[:3], 'chain': False})
   # NumPy-typed seeds, and dataset sizes around the 2**15 / 2**16 boundaries of narrow index types
   for stype in ('int64', 'uint32', 'int32'):
     for n, b in ((5, 2), (7, 3)):
@@ -423,6 +450,8 @@ def plan(ctx):
         se.append({'N': via_len(via), 'via': via, 'B': b, 'epochs': ep, 'steps': st, 'drop': drop, 'skip': skip,
                    'seeds': seeds[:3], 'chain': b % 2 == 1})
   ctx.pmap('seeded', se, chunk=64)
+  ctx.pmap('counts', [{'N_lo': lo, 'N_hi': lo + 10, 'Bs': [1, 2, 3, 5, 7, 9, 16], 'epochs': [1, 2, 3, 5, 9]}
+                      for lo in range(1, 121 if th else 101, 10)], chunk=1)
   cfgs = [[n, b, ep, st, False, seed, via] for n, via in ((5, None), (8, None), (3, 'step2'), (3, 'rev2'))
           for b in (2, 3) for ep, st in ((2, None), (None, 5)) for seed in (0, 3)]
   ctx.pmap('other_process', [{'configs': cfgs, 'hashseeds': [hs]} for hs in ((1, 2, 3, 12345) if th else (1, 2))], chunk=1)
